@@ -311,6 +311,101 @@ func scenario(prog string, o1, o2 outv, c conf, b sched.Bounds, cuts bool, tag s
 	}}
 }
 
+// twinScenario: two sessions of one process run concurrently (one goroutine per device, as fleets are driven): every
+// interleaving within the bound of the two callers and the two read loops; each session must return its own
+// device's output. State the library shares between connections (package-level buffers, pools, caches) shows here.
+func twinScenario(c conf, b sched.Bounds) sched.Scenario {
+	name := fmt.Sprintf("twin/%s/pre=%d", c, b.Pre)
+	return sched.Scenario{Name: name, Run: func(w *sched.W) {
+		// only the read loops' points: a Point inside Channel.Read would make every poll of one session a foreign
+		// event for the other session's poller, and the two would re-enable each other for ever at one instant
+		cfg := cm.Cfg("chan.read.")
+		cfg.NoPreAlt = b.Pre == 0
+		cfg.NoIdleAlt = true
+		w.Explore(cfg, b, func(e *sched.Env) {
+			type sess struct {
+				d      *dev.CLIDevice
+				tr     *dev.FakeTransport
+				res    []string
+				err    error
+				o1, o2 string
+				prompt string
+				cmdA   string
+				cmdB   string
+				setup  error
+			}
+			mk := func(i int) *sess {
+				s := &sess{prompt: fmt.Sprintf("router%d#", i), cmdA: cmd1, cmdB: cmd2,
+					o1: fmt.Sprintf("device %d alpha\nsecond line of %d", i, i), o2: fmt.Sprintf("all of device %d", i)}
+				s.d = dev.NewCLI("exec", &dev.Mode{Name: "exec", Prompt: s.prompt, OnLine: dev.Table(map[string]dev.Reply{s.cmdA: {Out: s.o1}, s.cmdB: {Out: s.o2}})})
+				s.tr = dev.NewFake(e, s.d)
+				return s
+			}
+			ss := []*sess{mk(1), mk(2)}
+			for i, s := range ss {
+				s := s
+				tname := "client"
+				if i == 1 {
+					tname = "client2"
+				}
+				e.Go(tname, func() {
+					opts := cm.BaseOpts(s.tr, c.delay, 20*time.Second, c.readSize)
+					var opo []util.Option
+					if c.match == "exact" {
+						opo = append(opo, opoptions.WithExactMatchInput())
+					}
+					g, err := generic.NewDriver("dev", opts...)
+					if err != nil {
+						s.setup = err
+						return
+					}
+					if s.setup = g.Open(); s.setup != nil {
+						return
+					}
+					for _, cmd := range []string{s.cmdA, s.cmdB, s.cmdA} {
+						r, err := g.SendCommand(cmd, opo...)
+						if err != nil {
+							s.err = err
+							return
+						}
+						s.res = append(s.res, r.Result)
+					}
+				})
+			}
+			e.OnFinish(func() {
+				if e.Verdict != "" {
+					e.Violate("c01:"+e.Verdict, "twin sessions did not finish: %s", e.HangInfo)
+					return
+				}
+				for i, s := range ss {
+					if s.setup != nil || s.err != nil {
+						e.Violate("c01:twin-op-error", "session %d: setup=%v err=%v", i+1, s.setup, s.err)
+						continue
+					}
+					want := []string{cm.NormOutput(s.o1, ""), cm.NormOutput(s.o2, ""), cm.NormOutput(s.o1, "")}
+					e.Observe("s%d=%q", i+1, s.res)
+					if strings.Join(s.res, "|") != strings.Join(want, "|") {
+						sig := "c01:twin-result-mismatch"
+						for _, r := range s.res {
+							if strings.Contains(r, fmt.Sprintf("device %d", 2-i)) || strings.Contains(r, fmt.Sprintf("router%d", 2-i)) {
+								sig = "c01:twin-result-has-other-sessions-bytes"
+							}
+						}
+						e.Violate(sig, "session %d returned %q want %q", i+1, s.res, want)
+					}
+					var lines []string
+					for _, l := range s.d.NonEmptyLines() {
+						lines = append(lines, l)
+					}
+					if strings.Join(lines, "|") != strings.Join([]string{s.cmdA, s.cmdB, s.cmdA}, "|") {
+						e.Violate("c01:twin-device-lines", "device %d received %q", i+1, lines)
+					}
+				}
+			})
+		})
+	}}
+}
+
 func scenarios(tier string) []sched.Scenario {
 	var out []sched.Scenario
 	thorough := tier == "thorough"
@@ -426,6 +521,17 @@ func scenarios(tier string) []sched.Scenario {
 			out = append(out, scenario("A", outs[2], outs[0], c, sched.Bounds{Pre: 1, Env: 0}, false, "pre"))
 		}
 	}
+	// (5) two concurrent sessions
+	for _, c := range confs {
+		if c.drv != "generic" || c.depthMode != 2 || c.keep || c.promptSp || c.match == "wrap" || c.readSize == 7 {
+			continue
+		}
+		pre := 1
+		if thorough {
+			pre = 2
+		}
+		out = append(out, twinScenario(c, sched.Bounds{Pre: pre}))
+	}
 	return out
 }
 
@@ -435,7 +541,7 @@ func TestCheck(t *testing.T) {
 		Level: "model_checking",
 		Rule: "scenario = (driver, program over {SendCommand c1, SendCommand c2, SendCommands[c1,c2], GetPrompt}, output variants, read size, search depth, strip/keep prompt, fuzzy/exact/wrapped echo, read delay, prompt trailing space); " +
 			"per scenario every placement of up to Env extra read cuts / held deliveries (and Pre thread switches) around the preset segmentation is executed on the real driver over a causal device model; " +
-			"'allseg' scenarios enumerate every segmentation of every piece of a tiny session; distinct = distinct (choice sequence, observed results)",
+			"'allseg' scenarios enumerate every segmentation of every piece of a tiny session; 'twin' scenarios run two sessions of one process concurrently (all interleavings of the two callers and read loops within the thread-switch bound); distinct = distinct (choice sequence, observed results)",
 		Assumptions: []string{
 			"device echoes input verbatim (or with wrap bytes in 'wrap' mode) and answers a line when its return arrives",
 			"no proper prefix of an exchange looks like a prompt: outputs contain [#>$] only at the end of a line that as a whole does not match the prompt pattern; escape sequences are never cut",
